@@ -14,6 +14,7 @@
 import Psa.Model.Codec
 import Psa.Props.C01
 import Psa.Proofs.RoundTrip
+import Psa.Proofs.Perm
 namespace Psa.Props.C04
 open Psa Psa.Model Psa.Spec
 
@@ -159,5 +160,41 @@ theorem wire_token_accepted (u : Bytes → Dec Bytes) (extra : List Bytes) (c : 
   unfold decodeAndValidate
   rw [← hb', h2]
   simp [Dec.bind, h4]
+
+/-- **A CBOR map is a set of entries: the order in which a token lists its claims does not change what is decoded**
+    (error, out-of-model verdict or claims-set alike). `KeysApart`: no two entries select the same field — in
+    particular entries with pairwise distinct integer keys. -/
+theorem entry_order_irrelevant (u : Bytes → Dec Bytes) (extra : List Bytes) (l₁ l₂ : List (Cbor × Cbor))
+    (hp : l₁.Perm l₂) (hpw : l₁.Pairwise Proofs.Perm.KeysApart) :
+    decodeClaimsTree u extra (.map l₁) = decodeClaimsTree u extra (.map l₂) :=
+  Proofs.Perm.decodeClaimsTree_perm u extra l₁ l₂ hp hpw
+
+/-- … stated on bytes, for the validating entry point -/
+theorem entry_order_irrelevant_bytes (u : Bytes → Dec Bytes) (extra : List Bytes) (l₁ l₂ : List (Cbor × Cbor))
+    (hp : l₁.Perm l₂) (hpw : l₁.Pairwise Proofs.Perm.KeysApart)
+    (h₁ : Cbor.OkAt {} (.map l₁) 0) (h₂ : Cbor.OkAt {} (.map l₂) 0) :
+    decodeAndValidate u extra (Cbor.enc (.map l₁)) = decodeAndValidate u extra (Cbor.enc (.map l₂)) := by
+  unfold decodeAndValidate
+  rw [Proofs.Perm.decodeClaims_perm u extra l₁ l₂ hp hpw h₁ h₂]
+
+/-- … and for the entries of one software component -/
+theorem component_entry_order_irrelevant (l₁ l₂ : List (Cbor × Cbor)) (hp : l₁.Perm l₂)
+    (hpw : l₁.Pairwise Proofs.Perm.KeysApart) : decCompElem (.map l₁) = decCompElem (.map l₂) :=
+  Proofs.Perm.decCompElem_perm l₁ l₂ hp hpw
+
+/-- the hypothesis is met by entries with distinct integer keys (what every conformant token has) -/
+theorem distinct_int_keys_apart (a b : Cbor × Cbor) (i j : Int) (ha : keyRes a.1 = .int i) (hb : keyRes b.1 = .int j)
+    (hne : i ≠ j) : Proofs.Perm.KeysApart a b :=
+  fun keys => Proofs.Perm.apart_of_int_keys keys a b i j ha hb hne
+
+/-- non-vacuity: two claims of a profile-2 token in either order -/
+example (u : Bytes → Dec Bytes) (v w : Cbor) :
+    decodeClaimsTree u [] (.map [(.uint 2394, v), (.uint 2395, w)]) =
+      decodeClaimsTree u [] (.map [(.uint 2395, w), (.uint 2394, v)]) :=
+  entry_order_irrelevant u [] _ _ (List.Perm.swap _ _ _)
+    (List.pairwise_cons.mpr ⟨fun b hb => by
+        simp only [List.mem_singleton] at hb; subst hb
+        exact distinct_int_keys_apart _ _ 2394 2395 (by simp [keyRes]) (by simp [keyRes]) (by decide),
+      List.pairwise_singleton _ _⟩)
 
 end Psa.Props.C04
